@@ -48,6 +48,7 @@ class Compiler:
     def compile(self, query, parameters=None):
         """Compile an AST into an executable statement."""
         self.parameters = parameters
+        self.positions = {}
 
         placeholders = [node for node in query.walk() if isinstance(node, ast.Placeholder)]
         if placeholders:
@@ -64,8 +65,10 @@ class Compiler:
                 if len(placeholders) != len(parameters):
                     raise ProgrammingError(
                         f'the query has {len(placeholders)} placeholders but {len(parameters)} parameters were passed')
-                for i, placeholder in enumerate(sorted(placeholders, key=lambda node: node.parseinfo.pos)):
-                    placeholder.name = i
+                # Number the positional placeholders in source order. The numbering is kept
+                # out of the AST, which can be compiled again with other parameters.
+                self.positions = {id(placeholder): i for i, placeholder in enumerate(
+                    sorted(placeholders, key=lambda node: node.parseinfo.pos))}
             else:
                 raise ProgrammingError('positional and named parameters cannot be mixed')
 
@@ -629,7 +632,7 @@ class Compiler:
 
     @_compile.register
     def _placeholder(self, node: ast.Placeholder):
-        return EvalConstant(self.parameters[node.name])
+        return EvalConstant(self.parameters[node.name if node.name else self.positions[id(node)]])
 
     @_compile.register
     def _asterisk(self, node: ast.Asterisk):
